@@ -309,3 +309,221 @@ def gen_handshake(rng):
         if rng.random() < 0.2:
             ops.append(dict(op="close"))
     return dict(envs=envs, ops=ops, dtt=rng.choice([None, None, 2048]))
+
+
+# ---- more families ------------------------------------------------------------------------------------------
+def gen_mixed(rng, healthy=True):
+    """One session that touches every operation kind (used for faults, short writes, twins, guards)."""
+    shell = {b"echo": split_chunks(rng, rand_output(rng, 60)), b"": [b"restarting adbd as root\n"]}
+    content = rand_bytes(rng, rng.choice([0, 10, 3000, 9000]))
+    fs = {b"/d": ("dir", [(rand_name(rng), rand_u32(rng), rand_u32(rng), rand_u32(rng)) for _ in range(rng.randrange(0, 4))]), b"/f": content}
+    stat = {b"/f": (33188, len(content), 77)}
+    files = {0: rand_bytes(rng, rng.choice([0, 5, 2500, 7000]))}
+    ops = [connect_op(rng)]
+    pool = [dict(op="shell", cmd=b"echo", decode=rng.random() < 0.5), dict(op="stat", path=b"/f"), dict(op="list", path=b"/d"),
+            dict(op="pull", path=b"/f", cb=rng.choice(["none", "count"])), dict(op="push", src=("bytesio", 0), path=b"/sdcard/up", cb=rng.choice(["none", "count"])),
+            dict(op="exec_out", cmd=b"echo", decode=False), dict(op="streaming_shell", cmd=b"echo", decode=rng.random() < 0.5), dict(op="root")]
+    rng.shuffle(pool)
+    ops += pool[:rng.randrange(2, 7)]
+    sim = dict(maxdata=rng.choice([4096, 65536]), shell=shell, fs=fs, stat=stat, burst=rng.random() < 0.3, remote_ids=rand_remote_ids(rng),
+               wrte_split=rng.choice([None, [7], [1000]]), data_chunk=rng.choice([100, 4096, 65536]))
+    return dict(envs=[base_env(rng, sim)], ops=ops, files=files)
+
+
+def with_fault(rng, scn, total_in, total_out):
+    """Copy of a healthy scenario with one fault, then close + reconnect to a healthy device + the same ops again."""
+    s = copy.deepcopy(scn)
+    side = rng.choice(["in", "in", "out"])
+    off = rng.randrange(0, max(1, total_in if side == "in" else total_out))
+    kind = rng.choice(["timeout", "reset", "eof"] if side == "in" else ["timeout", "reset"])
+    s["envs"][0]["faults"] = [(side, off, kind)]
+    s["envs"][0]["dt"] = max(1, s["envs"][0].get("dt", 1))
+    healthy = copy.deepcopy(scn["envs"][0])
+    healthy.pop("faults", None)
+    s["envs"].append(healthy)
+    replay_ops = [copy.deepcopy(o) for o in scn["ops"]]
+    s["ops"] = scn["ops"] + [dict(op="close")] + replay_ops
+    s["fault"] = (side, off, kind)
+    s["n_before"] = len(scn["ops"])
+    return s
+
+
+def gen_short_writes(rng):
+    fam = rng.choice([gen_mixed, gen_push, gen_shell, gen_handshake])
+    scn = fam(rng)
+    for env in scn["envs"]:
+        mode = rng.choice(["ones", "small", "random", "none_return", "hdr"])
+        if mode == "none_return":
+            env["wnone"] = True
+        elif mode == "ones":
+            env["ofrags"] = [1] * 400 + [rng.choice([7, 23, 24, 25, 4095]) for _ in range(200)]
+        elif mode == "small":
+            env["ofrags"] = [rng.choice([1, 2, 7, 23, 24, 25]) for _ in range(600)]
+        elif mode == "hdr":
+            k = rng.randrange(1, 24)
+            env["ofrags"] = [k, 24 - k] * 100
+        else:
+            env["ofrags"] = [rng.randrange(1, 5000) for _ in range(300)]
+    return scn
+
+
+def gen_guards(rng, length=None):
+    """Sequences over connect-ok / connect-fail / close / every public operation (with and without an empty path)."""
+    n = length or rng.randrange(1, 5)
+    envs, ops = [], []
+    opkinds = ["connect_ok", "connect_fail_nokeys", "connect_fail_timeout", "connect_fail_nontoken", "close",
+               "shell", "exec_out", "root", "reboot", "streaming_shell", "list", "stat", "pull", "push", "list_e", "stat_e", "pull_e", "push_e"]
+    for _ in range(n):
+        k = rng.choice(opkinds)
+        add_guard_op(rng, k, envs, ops)
+    return dict(envs=envs, ops=ops, files={0: b"data"})
+
+
+def add_guard_op(rng, k, envs, ops):
+    shell = {b"g": [b"x"], b"": [b"r"]}
+    fs = {b"/g": b"content", b"/gd": ("dir", [(b"a", 1, 2, 3)])}
+    stat = {b"/g": (1, 7, 3)}
+    base = dict(maxdata=4096, shell=shell, fs=fs, stat=stat)
+    if k.startswith("connect"):
+        sim = dict(base)
+        op = dict(op="connect", rt=1024, tt=1024, at=1024)
+        if k == "connect_fail_nokeys":
+            sim["auth"] = dict(accept=None, pubkey_ok=True)
+        elif k == "connect_fail_timeout":
+            sim["silent_after"] = 0
+        elif k == "connect_fail_nontoken":
+            sim["auth"] = dict(accept=None, pubkey_ok=True, nontoken_at=0)
+            op["keys"] = [1]
+        envs.append(dict(sim=sim, dt=1))
+        ops.append(op)
+    elif k == "close":
+        ops.append(dict(op="close"))
+    elif k in ("shell", "exec_out", "streaming_shell"):
+        ops.append(dict(op=k, cmd=b"g", decode=rng.random() < 0.5))
+    elif k in ("root", "reboot"):
+        ops.append(dict(op=k))
+    else:
+        empty = k.endswith("_e")
+        kind = k[:-2] if empty else k
+        path = b"" if empty else {"list": b"/gd", "stat": b"/g", "pull": b"/g", "push": b"/sdcard/g"}[kind]
+        op = dict(op=kind, path=path)
+        if kind == "pull":
+            op["dest"] = rng.choice(["bytesio", "file"])
+            op["cb"] = rng.choice(["none", "count"])
+        if kind == "push":
+            op["src"] = (rng.choice(["bytesio", "file"]), 0)
+        ops.append(op)
+
+
+def gen_stall(rng):
+    """The device stops after k packets / EOF / trickles / floods foreign or unexpected traffic; timeout grid."""
+    base = gen_mixed(rng)
+    ops = base["ops"]
+    grid = [None, 0, -1024, 1, 512, 3072, 10240]
+    tt, rt, t = rng.choice(grid[3:] + [None]), rng.choice(grid[3:]), rng.choice([None, None, 1, 3072, 10240])
+    if rng.random() < 0.15:
+        tt, rt = rng.choice(grid), rng.choice(grid)
+    for op in ops:
+        op["tt"], op["rt"] = tt, rt
+        if op["op"] in ("shell", "exec_out", "root", "reboot"):
+            op["t"] = t
+        if op["op"] == "connect":
+            op["at"] = rng.choice([100, 2048, 10240])
+    env = base["envs"][0]
+    kind = rng.choice(["silent", "silent", "eof", "trickle", "flood_foreign", "flood_unexpected"])
+    sim = env["sim"]
+    if kind == "silent":
+        sim["silent_after"] = rng.randrange(0, 14)
+    elif kind == "eof":
+        env["faults"] = [("in", rng.randrange(0, 400), "eof")]
+        env["dt"] = max(1, env.get("dt", 1))       # an empty read takes time; with dt = 0 virtual time would never pass
+    elif kind == "trickle":
+        env["frags"] = [rng.choice([1, 1, 2])] * 3000
+        env["dt"] = rng.choice([100, 500, 2000])
+    else:
+        after = rng.randrange(1, 10)
+        sim["silent_after"] = after
+        n = rng.choice([3, 30])
+        if kind == "flood_foreign":
+            raws = [pkt(b"WRTE", 5000 + j, 70000, b"noise") for j in range(n)]
+        else:
+            raws = [pkt(rng.choice([b"SYNC", b"OPEN", b"AUTH", b"CNXN"]), 0, 0, b"") for j in range(n)]
+        sim["stray"] = [(after + 1, b"".join(raws))]
+        env["dt"] = rng.choice([1, 200, 1000])
+    base["stall"] = kind
+    return base
+
+
+def gen_fail(rng):
+    """Device-side sync failures at every point: FAIL for RECV, FAIL status for SEND (at the end or overtaking an OKAY), invalid records."""
+    files = {0: rand_bytes(rng, rng.choice([0, 100, 6000, 9000, 20000]))}
+    msg = rng.choice([b"", b"nope", b"Permission denied", b"\xff\xfe bad utf8 \xe2\x82", b"x" * 1024])
+    sim = dict(maxdata=rng.choice([4096, 8192]), burst=rng.random() < 0.3, wrte_split=rng.choice([None, [3], [9], [1]]), remote_ids=rand_remote_ids(rng))
+    ops = [connect_op(rng)]
+    kind = rng.choice(["pull_fail", "push_fail_status", "push_fail_early", "pull_invalid", "push_invalid", "stat_invalid", "list_invalid", "pull_fail_after_data"])
+    if kind == "pull_fail":
+        sim["fs"] = {b"/x": ("fail", msg)}
+        ops.append(dict(op="pull", path=b"/x", cb=rng.choice(["none", "count"]), dest=rng.choice(["bytesio", "file"])))
+        sim["stat"] = {b"/x": (1, 2, 3)}
+    elif kind == "pull_fail_after_data":
+        raw = b"".join(sync_rec(b"DATA", len(c), data=c) for c in [b"abc", b"defg"][: rng.randrange(0, 3)]) + sync_rec(b"FAIL", len(msg), data=msg)
+        sim["fs"] = {b"/x": ("raw", raw)}
+        sim["expect"] = ("AdbCommandFailureException", msg)
+        ops.append(dict(op="pull", path=b"/x"))
+    elif kind == "push_fail_status":
+        sim["push_result"] = ("fail", msg, "status")
+        ops.append(dict(op="push", src=("bytesio", 0), path=b"/sdcard/f", cb=rng.choice(["none", "count"])))
+    elif kind == "push_fail_early":
+        sim["push_result"] = ("fail", msg, "early")
+        ops.append(dict(op="push", src=("bytesio", 0), path=b"/sdcard/f"))
+    elif kind == "pull_invalid":
+        rid = rng.choice([b"DENT", b"OKAY", b"STAT", b"SEND", b"LIST"])
+        raw = sync_rec(rid, 0) if rid != b"STAT" else sync_rec(b"STAT", 1, 2, 3)
+        sim["fs"] = {b"/x": ("raw", raw)}
+        sim["expect"] = ("InvalidResponseError", None)
+        ops.append(dict(op="pull", path=b"/x"))
+    elif kind == "push_invalid":
+        rid = rng.choice([b"DATA", b"DONE", b"DENT"])
+        sim["push_result"] = ("raw", sync_rec(rid, 0))
+        sim["expect"] = ("InvalidResponseError", None)
+        ops.append(dict(op="push", src=("bytesio", 0), path=b"/sdcard/f"))
+    elif kind == "stat_invalid":
+        rid = rng.choice([b"DATA", b"DONE", b"OKAY"])
+        sim["stat"] = {b"/x": ("raw", sync_rec(rid, 0, 0, 0))}
+        sim["expect"] = ("InvalidResponseError", None)
+        ops.append(dict(op="stat", path=b"/x"))
+    else:
+        rid = rng.choice([b"DATA", b"OKAY", b"SEND"])
+        sim["fs"] = {b"/x": ("raw", sync_rec(rid, 0, 0, 0, 0))}
+        sim["expect"] = ("InvalidResponseError", None)
+        ops.append(dict(op="list", path=b"/x"))
+    return dict(envs=[base_env(rng, sim)], ops=ops, files=files, failkind=kind)
+
+
+def gen_corrupt(rng):
+    base = rng.choice([gen_shell, gen_sync_read, gen_mixed])(rng)
+    base["envs"][0]["sim"]["corrupt"] = (rng.randrange(1, 12), rng.choice(["sum", "cmd"]))
+    return base
+
+
+def refragment(rng, scn):
+    """Variants of a scenario that differ only in read fragmentation (first: unfragmented)."""
+    out = []
+    for mode in ["none", "ones", "hdr", "random", "empties", "big"]:
+        s = copy.deepcopy(scn)
+        for env in s["envs"]:
+            if mode == "none":
+                env["frags"] = []
+            elif mode == "ones":
+                env["frags"] = [1] * 5000
+            elif mode == "hdr":
+                k = rng.randrange(1, 24)
+                env["frags"] = [k, 24 - k] * 300
+            elif mode == "random":
+                env["frags"] = [rng.randrange(1, 60) for _ in range(800)]
+            elif mode == "empties":
+                env["frags"] = [rng.choice([0, 1, 5, 24, 0, 100]) for _ in range(800)]
+            else:
+                env["frags"] = [rng.choice([23, 24, 25, 4096]) for _ in range(300)]
+        out.append(s)
+    return out
